@@ -23,6 +23,7 @@ def run(chk):
     a64vec.run_signature_rows(chk, A)
     a64vec.run_fp(chk, A)
     zmask_rule(chk)
+    validator_mode_rule(chk)
     return chk.finish(
         level="other",
         explanation=("(a) the generated signature/name/RW tables regenerate byte-identically from db/; (b) for every instruction id of both "
@@ -201,3 +202,46 @@ def zmask_rule(chk):
                detail="validate() accepts the {z} option without looking at the kind of the destination operand: `vmovups [rax]{k1}{z}, zmm1` passes",
                key="zmask|regdest")
     chk.floor(R + ":validators", n, 1)
+
+
+def validator_mode_rule(chk):
+    R = "R-VALIDATOR-BY-MODE"
+    chk.rule(R, "x86: the validator stored in `_funcs.validate` depends on the target mode (validate_x86 / validate_x64 chosen through is_32bit() / "
+                "arch()), and in each x86 emitter (Assembler, Builder, Compiler) that choice is made inside on_attach() after the base class "
+                "attached the CodeHolder - only then is the environment known; a choice made at construction time always sees an empty environment")
+    n = 0
+    for unit, cls in (("asmjit/x86/x86assembler.cpp", "x86::Assembler"), ("asmjit/x86/x86builder.cpp", "x86::Builder"), ("asmjit/x86/x86compiler.cpp", "x86::Compiler")):
+        f = chk.facts(unit, funcs=r"asmjit::%s::(on_attach|%s)$|asmjit::x86::[a-z_]+_emitter_funcs$" % (cls, cls.split("::")[-1]))
+        fns = cfg.load_functions(f)
+        att = [g for g in fns if g.name.endswith("%s::on_attach" % cls)]
+        chk.need(len(att) == 1, "%s::on_attach not found" % cls)
+        att = att[0]
+
+        def selects_by_mode(g):
+            for i, x in g.ex.items():
+                if x["k"] == "binop" and x["op"] == "=" and re.sub(r"\s+", "", g.text(x["lhs"])).endswith("_funcs.validate"):
+                    r = g.text(x["rhs"])
+                    if re.search(r"is_32bit\(\)|is_64bit\(\)|arch\(\)|environment\(\)", r) and "validate_x86" in r and "validate_x64" in r:
+                        return True
+            return False
+        closure = cfg.callee_closure(att, fns)
+        # position: the selecting call (or assignment) is preceded on every path by Base::on_attach
+        def elem(eid, x, g=att):
+            if x["k"] in ("mcall", "call") and x.get("cn") == "on_attach":
+                return ((("base-attached",),), ())
+            return None
+        m = Must(att, elem, None)
+        ok = False
+        where = att.loc(att.entry) if False else "%s:%d" % (unit, att.line)
+        if selects_by_mode(att):
+            ok = True
+        for i, x in att.calls():
+            for g in closure:
+                if g is not att and x.get("callee") == g.name and selects_by_mode(g):
+                    ok = ("base-attached",) in (m.before(i) or frozenset())
+                    where = att.loc(i)
+        n += 1
+        chk.ob(R, "%s|on_attach" % cls, ok, loc=where,
+               detail="%s::on_attach() does not (after Base::on_attach) select validate_x86 / validate_x64 by the attached code's mode: a 32-bit target "
+                      "is validated with the 64-bit signature tables (aaa / pushad / les rejected, swapgs accepted)" % cls, key="validatormode|%s" % cls)
+    chk.floor(R + ":emitters", n, 3)
